@@ -17,6 +17,11 @@ RETRY_ENTRIES = [
     for api in ("Retry", "Policy", "RetryPolicy")
     for mode in ("call", "execute")
 ]
+# the rarely used doors as well: from_config constructors, context managers, the @retry decorator
+SUGAR_ENTRIES = [
+    f"{a}{api}.{mode}" for a in ("", "Async") for api in ("Retry.from_config", "RetryPolicy.from_config") for mode in ("call", "execute")
+] + [f"{a}{api}.context.call" for a in ("", "Async") for api in ("Retry", "Policy", "RetryPolicy")] + ["decorator.call", "adecorator.call"]
+WIDE_ENTRIES = RETRY_ENTRIES * 2 + SUGAR_ENTRIES  # plain entry points keep about 60 % of the weight
 CALL_ENTRIES = [e for e in RETRY_ENTRIES if e.endswith(".call")]
 EXECUTE_ENTRIES = [e for e in RETRY_ENTRIES if e.endswith(".execute")]
 
